@@ -184,7 +184,7 @@ pub fn run(ctx: &mut Ctx, _args: &Args) {
     exhaustive_small(ctx, &mut item);
 
     // ---- 2. random glyph sets
-    let n_sets = ctx.tier.pick(4000usize, 120_000usize);
+    let n_sets = ctx.tier.pick(80_000usize, 1_000_000usize);
     for i in 0..n_sets {
         item += 1;
         if !ctx.mine(item) {
@@ -227,16 +227,27 @@ pub fn run(ctx: &mut Ctx, _args: &Args) {
             continue;
         }
         let mut set = vec![];
-        for (dx, dy, on) in [(0i32, 0i32, true), (1, 0, true), (0, -1, false), (3, 4, true), (-300, 0, false), (0, 256, true)] {
+        // (dx, dy, on, alternate sign): long deltas (|d| > 255) do not encode their sign in the flag,
+        // so alternating keeps the flag constant while staying in range
+        for (dx, dy, on, alt) in [
+            (0i32, 0i32, true, false),
+            (1, 0, true, false),
+            (0, -1, false, false),
+            (3, 4, true, false),
+            (-300, 0, false, true),
+            (0, 256, true, true),
+            (-255, 255, false, false),
+        ] {
+            if !alt && (dx.abs().max(dy.abs()) as usize) * l > 30000 {
+                continue;
+            }
             // a leading point with a different flag, then l identical ones, then a different one
             let mut pts = vec![Pt { x: -1000, y: 500, on: !on }];
             let (mut x, mut y) = (-1000i32, 500i32);
             for k in 0..l {
-                let sx = if (-32000..32000).contains(&(x + dx)) { dx } else { 0 };
-                // keep deltas identical: ranges chosen so that no reflection is needed for l <= 600 except dx=-300
-                let sx = if dx == -300 && k % 2 == 1 { sx } else { sx };
-                x += sx;
-                y += dy;
+                let s = if alt && k % 2 == 1 { -1 } else { 1 };
+                x += s * dx;
+                y += s * dy;
                 pts.push(Pt { x: x as i16, y: y as i16, on });
             }
             pts.push(Pt { x: 7, y: 7, on: !on });
@@ -250,7 +261,7 @@ pub fn run(ctx: &mut Ctx, _args: &Args) {
     let targets: Vec<usize> = {
         let mut t = vec![0x1FFF0, 0x1FFFC, 0x1FFFE, 0x20000, 0x20002, 0x20010, 0x10000, 0x30000];
         let mut rng = Rng::derive(ctx.seed, "c09-size-targets", 0);
-        for _ in 0..ctx.tier.pick(8, 120) {
+        for _ in 0..ctx.tier.pick(56, 600) {
             t.push((rng.range(0x1FF00, 0x20100) as usize) & !1);
         }
         t
@@ -273,7 +284,7 @@ pub fn run(ctx: &mut Ctx, _args: &Args) {
     }
 
     // ---- 6. bezpath -> glyph -> unscaled draw
-    let n_draw = ctx.tier.pick(6000usize, 200_000usize);
+    let n_draw = ctx.tier.pick(120_000usize, 2_500_000usize);
     for i in 0..n_draw {
         item += 1;
         if !ctx.mine(item) {
@@ -282,6 +293,22 @@ pub fn run(ctx: &mut Ctx, _args: &Args) {
         let mut rng = Rng::derive(ctx.seed, "c09-draw", i as u64);
         ctx.count("cases:draw", 1);
         draw::check_draw_case(ctx, &mut rng);
+    }
+
+    // ---- 6b. extreme sizes: 65535 points in one contour; 32766 one-point contours
+    item += 1;
+    if ctx.mine(item) {
+        let pts: Vec<Pt> = (0..65535u32).map(|k| Pt { x: (k % 251) as i16, y: ((k / 251) as i16) - 100, on: k % 5 != 0 }).collect();
+        let big = MGlyph::Simple { bbox: [0, -100, 250, 161], contours: vec![pts], instr: vec![] };
+        ctx.count("cases:extreme-size-glyphs", 1);
+        check_set(ctx, "extreme-65535-points", &[MGlyph::Empty, big], AddVia::Direct);
+    }
+    item += 1;
+    if ctx.mine(item) {
+        let contours: Vec<Vec<Pt>> = (0..32766u32).map(|k| vec![Pt { x: (k % 300) as i16, y: (k / 300) as i16, on: true }]).collect();
+        let many = MGlyph::Simple { bbox: [0, 0, 299, 109], contours, instr: vec![1] };
+        ctx.count("cases:extreme-size-glyphs", 1);
+        check_set(ctx, "extreme-32766-contours", &[many], AddVia::Enum);
     }
 
     // ---- 7. probes at the domain edge
